@@ -23,6 +23,7 @@ import (
 	"fmt"
 	"io"
 	"os"
+	"runtime"
 	"runtime/debug"
 	"strings"
 	"sync"
@@ -93,9 +94,19 @@ type v03IO struct {
 	// live mode
 	inbox [][]byte
 	gate  chan struct{}
+	// close-race live mode: datagrams arrive on a channel; closing it is the connection error
+	liveCh chan []byte
 }
 
 func (o *v03IO) ReceiveMessage() (*protocol.UDPMessage, error) {
+	if o.liveCh != nil {
+		for d := range o.liveCh {
+			if m, err := protocol.ParseUDPMessage(v03Tight(d)); err == nil {
+				return m, nil
+			}
+		}
+		return nil, v03ErrRecvDone
+	}
 	if o.gate != nil {
 		<-o.gate
 	}
@@ -476,4 +487,199 @@ func TestVerifC03_ClientUDP(t *testing.T) {
 			rt.Fatalf("C03: %v", err)
 		}
 	})
+}
+
+// ---- close race: a server datagram arrives while the application closes that UDP session ----
+//
+// run() is the only caller of feed(); the application may call HyUDPConn.Close() (and Receive) from any
+// goroutine at any time. Goroutine A plays run(): it feeds a generated burst of datagrams for session s in a
+// tight loop; goroutine B plays the application: after a drawn number of scheduler yields it closes s
+// (optionally a third goroutine sits in Receive, as applications do). Both under recover(). Repeated with
+// fresh sessions so that the few-instruction window between "session looked up" and "message queued" is met.
+
+type v03CloseRaceCase struct {
+	reps     int
+	nmsgs    int
+	yields   []int
+	receiver []bool
+	fragPct  int
+	live     bool // the real run() goroutine feeds (a panic there kills the process: see c03_lastcase.txt)
+}
+
+func (c *v03CloseRaceCase) render() string {
+	return fmt.Sprintf("reps=%d burst=%d datagrams (%d%% fragments) live=%v yields=%v receiver=%v", c.reps, c.nmsgs, c.fragPct, c.live, c.yields, c.receiver)
+}
+
+func v03GenCloseRace(rt *rapid.T) *v03CloseRaceCase {
+	c := &v03CloseRaceCase{reps: rapid.IntRange(20, 50).Draw(rt, "reps"), nmsgs: rapid.SampledFrom([]int{100, 200, 400, 800}).Draw(rt, "burst"),
+		fragPct: rapid.SampledFrom([]int{0, 30, 100}).Draw(rt, "fragPct"), live: rapid.IntRange(0, 7).Draw(rt, "liveRun") == 7}
+	for i := 0; i < c.reps; i++ {
+		c.yields = append(c.yields, rapid.SampledFrom([]int{0, 1, 2, 3, 5, 8, 13, 21, 34, 55, 89, 144}).Draw(rt, "yields"))
+		c.receiver = append(c.receiver, rapid.IntRange(0, 2).Draw(rt, "receiver") == 2)
+	}
+	return c
+}
+
+func v03RunCloseRace(c *v03CloseRaceCase) (hits int, verr error) {
+	o := &v03IO{limit: 1200}
+	var m *udpSessionManager
+	var liveInbox chan []byte
+	if c.live {
+		liveInbox = make(chan []byte, 1024)
+		o.liveCh = liveInbox
+		m = newUDPSessionManager(o)
+		defer close(liveInbox) // ReceiveMessage then reports an error and run() ends
+	} else {
+		m = &udpSessionManager{io: o, m: make(map[uint32]*udpConn), nextID: 1}
+	}
+	for rep := 0; rep < c.reps; rep++ {
+		hc, err := m.NewUDP()
+		if err != nil {
+			return hits, fmt.Errorf("NewUDP failed in repetition %d: %v", rep, err)
+		}
+		conn := hc.(*udpConn)
+		var dgrams [][]byte
+		for i := 0; i < c.nmsgs; i++ {
+			if (i*37)%100 < c.fragPct {
+				dgrams = append(dgrams, v03EncUDP(conn.ID, uint16(1+i/3), uint8(i%3), 3, "r:1", []byte{byte(i)}))
+			} else {
+				dgrams = append(dgrams, v03EncUDP(conn.ID, 0, 0, 1, "r:1", []byte{byte(i)}))
+			}
+		}
+		start := make(chan struct{})
+		var wg sync.WaitGroup
+		var apv, bpv, rpv any
+		var astack, bstack, rstack string
+		wg.Add(2)
+		go func() { // run(): ReceiveMessage -> ParseUDPMessage -> feed, one datagram after the other
+			defer wg.Done()
+			<-start
+			if c.live {
+				for _, d := range dgrams {
+					liveInbox <- d
+				}
+				return
+			}
+			apv, astack = v03Guard(func() {
+				for _, d := range dgrams {
+					msg, perr := protocol.ParseUDPMessage(v03Tight(d))
+					if perr != nil {
+						panic("race datagram does not parse: " + perr.Error())
+					}
+					m.feed(msg)
+				}
+			})
+		}()
+		go func() { // the application
+			defer wg.Done()
+			<-start
+			for i := 0; i < c.yields[rep]; i++ {
+				runtime.Gosched()
+			}
+			bpv, bstack = v03Guard(func() { _ = hc.Close() })
+		}()
+		if c.receiver[rep] {
+			wg.Add(1)
+			go func() {
+				defer wg.Done()
+				rpv, rstack = v03Guard(func() {
+					for {
+						if _, _, err := hc.Receive(); err != nil {
+							return
+						}
+					}
+				})
+			}()
+		}
+		close(start)
+		done := make(chan struct{})
+		go func() { wg.Wait(); close(done) }()
+		select {
+		case <-done:
+		case <-time.After(60 * time.Second):
+			vInconclusive("C03 client close race: feed/Close/Receive did not return within 60 s")
+		}
+		for _, x := range []struct {
+			who   string
+			pv    any
+			stack string
+		}{{"udpSessionManager.feed (a datagram for the session arrived)", apv, astack}, {"udpConn.Close", bpv, bstack}, {"udpConn.Receive", rpv, rstack}} {
+			if x.pv != nil {
+				return hits, fmt.Errorf("%s panicked while the application closed the session concurrently (repetition %d, session %d, Close after %d yields): %v\n%s\n%s",
+					x.who, rep, conn.ID, c.yields[rep], x.pv, c.render(), x.stack)
+			}
+		}
+		if n := len(conn.ReceiveCh); n > 0 && n < c.nmsgs {
+			hits++ // the close really landed inside the burst
+		}
+	}
+	if c.live {
+		// let run() finish the bursts: a marker session sees its datagram when everything before it was fed
+		hc, err := m.NewUDP()
+		if err != nil {
+			return hits, fmt.Errorf("service did not continue: NewUDP after the close races: %v", err)
+		}
+		liveInbox <- v03EncUDP(hc.(*udpConn).ID, 0, 0, 1, "probe:53", []byte("probe-live"))
+		got := make(chan string, 1)
+		go func() {
+			d, _, err := hc.Receive()
+			got <- fmt.Sprintf("%s|%v", d, err)
+		}()
+		select {
+		case g := <-got:
+			if g != "probe-live|<nil>" {
+				return hits, fmt.Errorf("service did not continue: the probe datagram to a fresh session was received as %q\n%s", g, c.render())
+			}
+		case <-time.After(60 * time.Second):
+			vInconclusive("C03 client close race: the probe datagram was not delivered by run() within 60 s")
+		}
+		return hits, nil
+	}
+	// service continues
+	hc, err := m.NewUDP()
+	if err != nil {
+		return hits, fmt.Errorf("service did not continue: NewUDP after the close races: %v\n%s", err, c.render())
+	}
+	pmsg, _ := protocol.ParseUDPMessage(v03Tight(v03EncUDP(hc.(*udpConn).ID, 0, 0, 1, "probe:53", []byte("probe"))))
+	var d []byte
+	var rerr error
+	pv, stack := v03Guard(func() {
+		m.feed(pmsg)
+		d, _, rerr = hc.Receive()
+	})
+	if pv != nil || rerr != nil || string(d) != "probe" {
+		return hits, fmt.Errorf("service did not continue: a probe datagram to a fresh session after the close races gave %q, %v, panic=%v\n%s%s", d, rerr, pv, c.render(), stack)
+	}
+	return hits, nil
+}
+
+func v03CloseRaceTest(t *testing.T, name string) {
+	st := newVStats(name)
+	defer st.Flush()
+	rapid.Check(t, func(rt *rapid.T) {
+		c := v03GenCloseRace(rt)
+		if c.live {
+			_ = os.WriteFile("c03_lastcase.txt", []byte("close race: "+c.render()), 0o644)
+		}
+		hits, err := v03RunCloseRace(c)
+		classes := []string{"mode:sync"}
+		if c.live {
+			classes[0] = "mode:live"
+		}
+		if hits > 0 {
+			classes = append(classes, "close-landed-inside-burst")
+		}
+		st.Case(hits > 0 || c.live, c.render(), classes, c.render)
+		if err != nil {
+			rt.Fatalf("C03: %v", err)
+		}
+	})
+}
+
+func TestVerifC03_ClientCloseRace(t *testing.T) { v03CloseRaceTest(t, "TestVerifC03_ClientCloseRace") }
+
+// The same under the race detector (registered with "race": True): the runtime reports a channel send that is
+// not ordered against close() even when the instruction window is not hit.
+func TestVerifC03_ClientCloseRaceDetector(t *testing.T) {
+	v03CloseRaceTest(t, "TestVerifC03_ClientCloseRaceDetector")
 }
